@@ -31,8 +31,9 @@ func runC14(c *Ctx) {
 		"HTMLTable." + anchorFieldName("html", "HTMLTable", "template") + "|store":               "parsed template cached on the wrapper itself",
 		"ErrorContainer." + anchorFieldName("", "ErrorContainer", "errors_") + "|store":          "error list (only reached when a callback returns an error)",
 		"elem of ErrorContainer." + anchorFieldName("", "ErrorContainer", "errors_") + "|append": "error list (only reached when a callback returns an error)",
-		"Row.ErrorContainer|store": "lazy creation of a row's error container (only reached when a callback returns an error)",
-		"elem|append":              "append to a slice that is not table state (result of a standard-library call)",
+		"Row.ErrorContainer|store":          "lazy creation of a row's error container (only reached when a callback returns an error)",
+		"*(**tabular.ErrorContainer)|store": "the same lazy creation, done by a helper handed the address of the container field",
+		"elem|append":                       "append to a slice that is not table state (result of a standard-library call)",
 	}
 	nfn := 0
 	for _, rel := range []string{"csv", "html", "json", "markdown", "texttable", "auto"} {
